@@ -251,6 +251,88 @@ def rule_protocol(ck, facts):
             ck.bad(R, "workers-before-dsp|%s" % f.short, "%s: a plugin worker can run after the dsp call of the same sample (scheduled tasks would fire one sample late)" % f.short, f.where())
 
 
+def rule_drain(ck, facts):
+    R = "C11.drain"
+    ck.rule(R, "(every sample) in the VM worker's on_sample, the channel that delivers newly scheduled tasks is polled and the current time is stored on every path to a return (no early exit before them); (all due tasks) a loop that pops the pending queue leaves only because the queue is empty or its head is not due: no other condition (a count, a buffer size) ends the drain")
+    sc = facts.crate(SCHED)
+    # (every sample)
+    workers = [f for f in sc.fns if f.short.endswith("::on_sample") and "scheduler::SchedulerAudioWorker" in f.path]
+    ck.require(R, len(workers) == 1, "anchor|on_sample", "VM scheduler worker on_sample not found")
+    for f in workers:
+        dom = dominators(f)
+        rets = [b for b in range(f.nblocks()) if not f.is_cleanup(b) and f.term(b)[KIND] == "return"]
+        polls = [b for b, t in f.calls() if (callee(t) or "").split("::")[-1] in ("try_recv", "try_iter", "recv_timeout")]
+        times = [b for b, t in f.calls() if (callee(t) or "").split("::")[-1] == "set_cur_time"]
+        for b, st in f.all_stmts():
+            if st[KIND] == "a" and st[4][1]:
+                fl = place_fields(st[4])
+                if fl and fl[-1] and fl[-1].endswith("SchedulerAudioWorker::cur_time"):
+                    times.append(b)
+        ck.require(R, bool(polls) and bool(times), "anchor|poll-and-time", "on_sample no longer polls the channel / stores the current time")
+        for what, blocks in (("poll", polls), ("time", times)):
+            ok = bool(blocks) and all(any(p in dom.get(r, ()) for p in blocks) for r in rets)
+            key = "every-sample|%s" % what
+            if ok:
+                ck.ok(R, key)
+            else:
+                ck.bad(R, key, "%s can return without %s: on the samples where it leaves early, tasks scheduled meanwhile stay in the channel and the `must be in the future` test later compares against a stale time, so a task scheduled while a later one is pending runs late" % (f.short, "polling the channel of newly scheduled tasks" if what == "poll" else "storing the current time"), f.where())
+    # (all due tasks)
+    n = 0
+    for f in sc.fns:
+        if f.kind == "promoted" or "::test" in f.path:
+            continue
+        pops = [b for b, t in f.calls() if (callee(t) or "").split("::")[-1] in ("pop", "pop_task") and ("BinaryHeap" in (callee(t) or "") or "pop_task" in (callee(t) or ""))]
+        if not pops:
+            continue
+        di = DefIndex(f)
+        for h, body in natural_loops(f):
+            if not any(b in body for b in pops):
+                continue
+            n += 1
+            bad = None
+            for b in sorted(body):
+                t = f.term(b)
+                if t[KIND] != "switch":
+                    continue
+                succs = [tb for _, tb in t[6]] + [t[7]]
+                if all(x in body for x in succs):
+                    continue
+                # classify the exit condition
+                op = t[4]
+                ok = False
+                cur = op
+                for _ in range(6):
+                    if cur[0] not in ("cp", "mv"):
+                        break
+                    r = di.resolve(cur)
+                    if r[0] == "rv" and r[1][5][0] == "disc":
+                        src = di.resolve(["cp", [r[1][5][1][0], []]])
+                        if src[0] == "call" and (callee(src[1]) or "").split("::")[-1] in ("peek", "pop", "pop_task", "try_recv", "next"):
+                            ok = True
+                        break
+                    if r[0] == "call":
+                        c = callee(r[1]) or ""
+                        if c.split("::")[-1] in ("le", "lt", "ge", "gt") and "Time" in ((r[1][4].get("full") or "") if isinstance(r[1][4], dict) else ""):
+                            ok = True
+                        break
+                    if r[0] == "rv" and r[1][5][0] == "use":
+                        cur = r[1][5][1]
+                        continue
+                    if r[0] == "rv" and r[1][5][0] == "bin" and r[1][5][1] in ("le", "lt", "ge", "gt"):
+                        txt = repr(r[1][5])
+                        ok = "Task::when" in txt or "Time::0" in txt
+                        break
+                    break
+                if not ok:
+                    bad = t
+            key = "all-due|%s" % f.short.split("::")[-1]
+            if bad is None:
+                ck.ok(R, key)
+            else:
+                ck.bad(R, key, "%s: the loop that pops the pending queue can also end on a condition that is neither `queue empty` nor `head not due` (a count / buffer-size test): when more tasks are due than that bound, the rest run on later samples — late, and differently from the other runtime" % f.short, f.where(bad))
+    ck.floor(R, "drain_loops", n, 2)
+
+
 def run(ck, facts, tier):
     ck.floor("C11.anchor", "scheduler_bodies", len(facts.crate(SCHED).fns), 25)
     rule_queue_types(ck, facts)
@@ -258,4 +340,5 @@ def run(ck, facts, tier):
     rule_time_conversion(ck, facts)
     rule_guards(ck, facts)
     rule_protocol(ck, facts)
+    rule_drain(ck, facts)
     ck.not_decided("exactly-once execution over histories, order among tasks due at the same sample, lifetime of scheduled closures")
